@@ -23,7 +23,7 @@ PROPS["C18"] = dict(
 )
 
 PROPS["C09"] = dict(
-    functions=[M + "contract_pair", M + "contract_and_count_pairs", M + "bpe_encode", M + "count_pairs"],
+    functions=[M + "contract_pair", M + "contract_and_count_pairs", M + "bpe_encode", M + "count_pairs", M + "pair_length"],
     bounded=True,
     level="proof",
     level_text=("Proof (all inputs, unbounded) for the kernels that make the encoding lossless: contract_pair and contract_and_count_pairs satisfy a "
@@ -346,6 +346,7 @@ PROPS["C06"]["structural"] = [st("ngram_vectorizer.py", "NgramVectorizer.__add__
 
 _NGK = "vectorizers/ngram_token_cooccurence_vectorizer.py::numba_build_skip_grams"
 PROPS["C10"]["functions"] += [_NGK]
+PROPS["C10"]["functions"] += ["vectorizers/mixed_gram_vectorizer.py::pair_length"]   # key safety of the length-table lookups
 
 PROPS["C13"]["structural"] += [
     st("linear_optimal_transport.py", f, "calls", callees=["mkdtemp", "remove", "rmdir"], why="the scratch memmap file and its directory are removed on the success path")
